@@ -163,3 +163,26 @@ impl SymmetricState {
         &self.inner.h[..hash_len]
     }
 }
+
+#[cfg(feature = "verif-hooks")]
+impl SymmetricState {
+    pub(crate) fn verif_from_parts(
+        cipherstate: CipherState,
+        hasher: Box<dyn Hash>,
+        h: [u8; MAXHASHLEN],
+        ck: [u8; MAXHASHLEN],
+        has_key: bool,
+    ) -> Self {
+        SymmetricState { cipherstate, hasher, inner: SymmetricStateData { h, ck, has_key } }
+    }
+
+    pub(crate) fn verif_parts(&self) -> ([u8; MAXHASHLEN], [u8; MAXHASHLEN], bool, u64, bool) {
+        (
+            self.inner.h,
+            self.inner.ck,
+            self.inner.has_key,
+            self.cipherstate.nonce(),
+            self.cipherstate.verif_has_key(),
+        )
+    }
+}
